@@ -27,6 +27,7 @@ import (
 	"bytes"
 	"encoding/binary"
 	"fmt"
+	"io"
 	"os"
 	"sort"
 	"sync"
@@ -156,8 +157,15 @@ func (h *c13run) loginLoop(r *RNG) *c13cl {
 	if r.Chance(50) {
 		extra = append(extra, fld(hotline.FieldVersion, []byte{0, 0xbe}))
 	}
-	wc := h.ts.Connect(fmt.Sprintf("10.4.%d.%d:4000", len(h.clients)/200, len(h.clients)%200+1), nil)
-	cl := &c13cl{wc: wc, acct: a, live: true}
+	addr := fmt.Sprintf("10.4.%d.%d:4000", len(h.clients)/200, len(h.clients)%200+1)
+	var wc *WireClient
+	var fc *faultConn
+	if h.faults {
+		wc, fc = connectFaulty(h.ts, addr, r.Intn(c13CloseModes)) // c13_wave_e.go
+	} else {
+		wc = h.ts.Connect(addr, nil)
+	}
+	cl := &c13cl{wc: wc, acct: a, live: true, fc: fc}
 	wc.Conn.Feed(clientHandshake)
 	outs, ended := h.loopBatch(cl, encTran(loginTran(1, c13Accts[a].login, "", extra...)))
 	if h.c.failed {
@@ -170,7 +178,7 @@ func (h *c13run) loginLoop(r *RNG) *c13cl {
 		return nil
 	}
 	for _, x := range h.ts.Srv.ClientMgr.List() {
-		if x.Connection == wc.Conn {
+		if x.Connection == io.ReadWriteCloser(wc.Conn) || (fc != nil && x.Connection == io.ReadWriteCloser(fc)) {
 			cl.cc = x
 		}
 	}
